@@ -1538,8 +1538,20 @@ MODULES.update({'struct', 'socket'})
 
 
 class VSuper(V):
+    """super() inside a method under contract: attribute lookup continues AFTER the contract's own class in the declared bases; a method
+    under contract there is called through its contract (on `self`); anything else (object.__init__, undeclared bases) is a no-op"""
     ty = TAny()
-    def attr(self, ex, st, node, name): return VFunc('builtin', 'noop')
+    def attr(self, ex, st, node, name):
+        fn = getattr(ex.ctx.c, 'func', '') or ''
+        cls = fn.split('.')[0] if '.' in fn else None
+        me = st.env.get('self')
+        if cls is not None and isinstance(me, VRef):
+            # the contract may be registered under an abstract class name (e.g. HTTPRequest for Request): use the static class of self
+            start = me.cls if cls not in CLASSES else cls
+            for b in ex.mro(start)[1:]:
+                for cand in (b + '.' + name + '@call', b + '.' + name):
+                    if cand in CONTRACTS: return VFunc('method', cand, me)
+        return VFunc('builtin', 'noop')
 
 
 BUILTINS['noop'] = lambda ex, st, node, *a, **k: VNone()
